@@ -797,7 +797,14 @@ def rule_recompile_like_fresh(ctx: Ctx, rid="C11.RECOMPILED-LIKE-FRESH", consequ
                              fam.groups(1), ("else", fam.groups(2))), False, ("alpha_s", "beta_s"), "no salt, two splitters, another condition field")
     con = f"{GEN}:PythonCodeGen.generate <- ExperimentEvaluator.recompile"
     n = followed = 0
-    for prev, nxt in ((big(), small()), (small(), big()), (big(), other()), (other(), small())):
+    pairs = [(big(), small()), (small(), big()), (big(), other()), (other(), small())]
+    if ctx.rep.tier == "thorough":
+        # every shape of the family as the earlier text (each recursive position of the generator has then run once before), and as
+        # the later text after the largest one
+        for prog in PL.Family("quick", ()).programs():
+            pairs.append((prog, small()))
+            pairs.append((big(), prog))
+    for prev, nxt in pairs:
         try:
             outs = PL.run_history(ctx.pipeline, prev, nxt)
         except (A.Unsupported, AnalysisError) as e:
